@@ -173,6 +173,7 @@ Section Match.
                 end
             | _, _ => None
             end
+        | None, None => vars_match fuel s (v + 1) k'          (* not created yet *)
         | _, _ => None
         end
     end.
